@@ -312,6 +312,13 @@ def h_quant(ctx):
         for pos in ai.positions():
             if ctx.choose_bool("miss:%s:%r" % (f, pos)):
                 del ai.fields[f][pos]
+    if ctx.choose_bool("degenerate-ensemble"):
+        # every member equals the observation at one case: quantiles derived from the ensemble coincide with it (an empty open interval)
+        pos0 = ai.positions()[0]
+        if pos0 in ai.fields["obs"]:
+            for m in ("e0", "e1", "e2"):
+                ai.fields[m][pos0] = ai.fields["obs"][pos0]
+            ctx.flag("degenerate")
     qs = ctx.choose("quantiles", QUANT_SETS, free=True)
     bin_type = ctx.choose("bin", ["within", "=within=", "within=", "=within"] if len(qs) == 2 else ["above", "below", "above=", "below="], free=True)
     ref = RD.RefData([ai])
